@@ -4,6 +4,7 @@ import Csproto.Bridge.WireFuncs
 import Csproto.Bridge.WireFuncs2
 import Csproto.Bridge.DecoderFuncs
 import Csproto.Bridge.EncoderFuncs
+import Csproto.Props.C01Source
 /- axiom audit for C01: parsed by ./check; every line must list only propext / Classical.choice / Quot.sound -/
 open Csproto
 #print axioms C01.sizeOfVarint_exact
@@ -74,3 +75,9 @@ open Csproto
 #print axioms Csproto.Bridge.EncoderFuncs.EncodeSInt64_refines
 #print axioms Csproto.Bridge.EncoderFuncs.EncodeSInt32_refines
 #print axioms Csproto.Bridge.EncoderFuncs.writeAt_writeAt
+
+-- C01 stated about the SOURCE (translated methods only, no model function in the statements): Props/C01Source.lean
+#print axioms Csproto.C01.Source.source_roundtrip_uint64
+#print axioms Csproto.C01.Source.source_roundtrip_sint64
+#print axioms Csproto.C01.Source.source_roundtrip_sint32
+#print axioms Csproto.C01.Source.source_roundtrip_uint32
